@@ -208,8 +208,10 @@ pub fn present_raw(
     guard(move || holder.create_presentation(sel, nonce, aud, key, alg))
 }
 
-/// `key`: either a key name (see keys::issuer_dec) or an object {iss: keyname, ...}
-/// for a resolver keyed by the (unverified) iss claim; unknown issuers get "HS256-other".
+/// `key`: either a key name (see keys::issuer_dec), an object {iss: keyname, ...}
+/// for a resolver keyed by the (unverified) iss claim (unknown issuers get "HS256-other"),
+/// or {"$kid": {kid: keyname, ...}, "$default": keyname} for a resolver that picks the key
+/// from the `kid` of the protected header it is handed.
 pub fn verify_with(
     presentation: &str,
     key: &J,
@@ -223,9 +225,15 @@ pub fn verify_with(
     let nonce = nonce.map(|s| s.to_string());
     let f = fmt_of(format);
     guard(move || {
-        let resolver = Box::new(move |iss: &str, _h: &jsonwebtoken::Header| -> DecodingKey {
+        let resolver = Box::new(move |iss: &str, h: &jsonwebtoken::Header| -> DecodingKey {
             match &key {
                 J::String(name) => keys::issuer_dec(name),
+                // resolver keyed by the protected header's kid: {"$kid": {kid: keyname}, "$default": keyname}
+                J::Object(map) if map.contains_key("$kid") => {
+                    let by_kid = h.kid.as_deref().and_then(|k| map["$kid"].get(k)).and_then(|v| v.as_str());
+                    let name = by_kid.or_else(|| map.get("$default").and_then(|v| v.as_str())).unwrap_or("HS256-other");
+                    keys::issuer_dec(name)
+                }
                 J::Object(map) => match map.get(iss).and_then(|v| v.as_str()) {
                     Some(name) => keys::issuer_dec(name),
                     None => keys::issuer_dec("HS256-other"),
